@@ -42,7 +42,7 @@ var numericKinds = []Kind{KInt, KInt16, KInt32, KInt64, KUint, KUint16, KUint32,
 
 func cfgC01(tier string) e1Cfg {
 	return e1Cfg{Prop: "C01", Kinds: allKinds, LateKinds: allKinds, KeyedPct: 20, LayoutPct: 60, Steps: steps(tier, 110, 400), Pool: "edge",
-		PNewCol: 3, Txn: baseTxn(), DumpEvery: map[string]int{"quick": 1, "thorough": 4}[tier], Oracles: oracleSet("values"), DensePct: 6}
+		PNewCol: 3, Txn: baseTxn(), DumpEvery: map[string]int{"quick": 1, "thorough": 4}[tier], Oracles: oracleSet("values"), DensePct: 6, PDelAll: 2}
 }
 
 func cfgC02(tier string) e1Cfg {
@@ -50,7 +50,7 @@ func cfgC02(tier string) e1Cfg {
 	t.PAbort, t.PFailInsert, t.MaxLive, t.PInsert, t.MaxOps, t.SwallowPct = 35, 15, 70, 40, 6, 30
 	return e1Cfg{Prop: "C02", Kinds: []Kind{KInt, KInt16, KUint32, KFloat64, KBool, KString, KStringCat, KEnum, KRecordMerge}, KeyedPct: 35, LayoutPct: 15,
 		Steps: steps(tier, 90, 300), Pool: "edge", Twin: true, InFlight: true, NIdx: 2, NSorted: 1, Txn: t, DumpEvery: 1,
-		Oracles: oracleSet("rollback", "own-reads", "values", "live", "stream-rollback"), Caps: []int{1, 64, 65, 1000, 16385}, Interlope: true, PRestore: 2, TailPct: 60}
+		Oracles: oracleSet("rollback", "own-reads", "values", "live", "stream-rollback"), Caps: []int{1, 64, 65, 1000, 16385}, Interlope: true, PRestore: 2, TailPct: 60, PDelAll: 3}
 }
 
 func cfgC03(tier string) e1Cfg {
@@ -58,7 +58,7 @@ func cfgC03(tier string) e1Cfg {
 	t.MergePct = 45
 	return e1Cfg{Prop: "C03", Kinds: []Kind{KInt, KInt16, KInt32, KInt64, KUint16, KUint64, KFloat32, KFloat64, KBool, KString, KStringCat, KEnum, KRecord, KStringMin, KUint, KRecordMerge}, KeyedPct: 10, LayoutPct: 50,
 		Steps: steps(tier, 100, 350), Pool: "small", Replica: true, NIdx: 5, PIdxChg: 7, PRestore: 2, Txn: t, DumpEvery: 1,
-		Oracles: oracleSet("index", "replica-index"), DensePct: 12, TailPct: 30}
+		Oracles: oracleSet("index", "replica-index"), DensePct: 12, TailPct: 30, PDelAll: 3}
 }
 
 func countPlan(tier string) Plan {
@@ -74,20 +74,20 @@ func cfgC04(tier string) e1Cfg {
 	t.PDelete, t.InsertAllPct = 22, 30
 	return e1Cfg{Prop: "C04", Kinds: append(append([]Kind{}, numericKinds...), KBool, KString, KEnum, KRecord), KeyedPct: 10, LayoutPct: 55,
 		LateKinds: append(append([]Kind{}, numericKinds...), KBool, KString, KEnum), PNewCol: 2,
-		Steps: steps(tier, 130, 420), Pool: "agg", NIdx: 4, PIdxChg: 3, PFilter: 55, Txn: t, DumpEvery: 1, Oracles: oracleSet("filter", "index")}
+		Steps: steps(tier, 130, 420), Pool: "agg", NIdx: 4, PIdxChg: 3, PFilter: 55, Txn: t, DumpEvery: 1, Oracles: oracleSet("filter", "index"), PDelAll: 4}
 }
 
 func cfgC07(tier string) e1Cfg {
 	return e1Cfg{Prop: "C07", Kinds: allKinds, LateKinds: allKinds, KeyedPct: 30, LayoutPct: 55, Steps: steps(tier, 70, 260), Pool: "edge",
 		NIdx: 3, NSorted: 1, PIdxChg: 2, PNewCol: 2, PRestore: 5, Txn: baseTxn(), DumpEvery: 2, FinalRestore: true,
-		Oracles: oracleSet("restore", "index", "sorted", "keys", "values", "live"), DensePct: 10, TailPct: 40}
+		Oracles: oracleSet("restore", "index", "sorted", "keys", "values", "live"), DensePct: 10, TailPct: 40, PDelAll: 2}
 }
 
 func cfgC11(tier string) e1Cfg {
 	t := baseTxn()
 	t.PInsert, t.PDelete, t.PUpdate, t.InsertAllPct, t.PAbort, t.PFailInsert, t.MaxOps, t.SwallowPct = 45, 35, 20, 40, 12, 10, 8, 30
 	return e1Cfg{Prop: "C11", Kinds: []Kind{KInt, KInt16, KUint64, KFloat32, KBool, KString, KStringCat, KEnum, KRecord, KRecordMerge, KInt64Mul}, KeyedPct: 15, LayoutPct: 70,
-		Steps: steps(tier, 130, 420), Pool: "edge", Txn: t, DumpEvery: 1, Oracles: oracleSet("live", "values"), DensePct: 7, Interlope: true}
+		Steps: steps(tier, 130, 420), Pool: "edge", Txn: t, DumpEvery: 1, Oracles: oracleSet("live", "values"), DensePct: 7, Interlope: true, PDelAll: 4}
 }
 
 func cfgC12(tier string) e1Cfg {
@@ -101,14 +101,14 @@ func cfgC16(tier string) e1Cfg {
 	t := baseTxn()
 	t.MergePct = 40
 	return e1Cfg{Prop: "C16", Kinds: []Kind{KString, KString, KEnum, KInt, KBool, KStringMin, KStringCat}, KeyedPct: 10, LayoutPct: 40, Steps: steps(tier, 130, 420), Pool: "small",
-		NIdx: 2, NSorted: 3, PIdxChg: 5, PFilter: 25, PRestore: 1, Txn: t, DumpEvery: 1, Oracles: oracleSet("sorted")}
+		NIdx: 2, NSorted: 3, PIdxChg: 5, PFilter: 25, PRestore: 1, Txn: t, DumpEvery: 1, Oracles: oracleSet("sorted"), PDelAll: 3}
 }
 
 func cfgC19(tier string) e1Cfg {
 	t := baseTxn()
 	t.MergePct, t.PAbort = 45, 15
 	return e1Cfg{Prop: "C19", Kinds: []Kind{KInt, KInt16, KInt32, KUint16, KUint64, KFloat32, KFloat64, KString, KEnum, KRecord, KInt64Mul, KStringCat, KRecordMerge, KStringMin}, KeyedPct: 10, LayoutPct: 35,
-		Steps: steps(tier, 150, 500), Pool: "edge", NIdx: 1, NTrig: 4, PIdxChg: 6, Txn: t, DumpEvery: 8, Oracles: oracleSet("trig")}
+		Steps: steps(tier, 150, 500), Pool: "edge", NIdx: 1, NTrig: 4, PIdxChg: 6, Txn: t, DumpEvery: 8, Oracles: oracleSet("trig"), PDelAll: 3}
 }
 
 type e1Prop struct {
